@@ -762,4 +762,12 @@ addendum('C10', 'R14 = the timeout part of C09.R2 (each command under its '
          'own limit).')
 addendum('C14', 'R9 also reports an iteration of the loop over the passes '
          'that leaves the loop without a sweep.')
+addendum('C03', 'R19: is_const folded on literal terms holds for the '
+         'constants of every theory and for nothing else (sa/probes.py).')
+addendum('C15', 'R14: the lexeme-class predicates folded on well-formed '
+         'leaves classify them as SMT-LIB does (sa/probes.py).')
+addendum('C16', 'R17: get_sort / get_bv_width / get_bv_constant_value '
+         'folded on closed literal terms give the standard\'s answer or '
+         '"unknown", and only "unknown" for an operand of unknown width '
+         '(sa/probes.py).')
 
